@@ -74,6 +74,14 @@ func (e *Enc) call(ins ssa.Instruction, c *ssa.CallCommon, res *ssa.Call) {
 			for i := 0; i < ms.Params().Len(); i++ {
 				params = append(params, ms.Params().At(i).Name())
 			}
+			if pn := ct.Opts["params"]; pn != "" {
+				// unnamed interface parameters get names from the contract: `opt params state data`
+				for i, n := range strings.Fields(pn) {
+					if i+1 < len(params) {
+						params[i+1] = n
+					}
+				}
+			}
 			wr := e.w.invokeWrites(c)
 			if ct.Pure {
 				wr = map[string]bool{}
